@@ -438,6 +438,7 @@ func (te *taintEngine) transferFunc(fn *ssa.Function) {
 					case *ssa.FieldAddr:
 						if fk, ok := structFieldKey(a.X, a.Field); ok {
 							te.setVal(x, te.tagField(te.visible(fk), fk))
+							te.setVal(x, te.tagField(te.get(a.X), fk)) // the struct value as a whole is tainted (parser results)
 						}
 					case *ssa.IndexAddr:
 						te.setVal(x, te.get(a.X))
@@ -450,6 +451,7 @@ func (te *taintEngine) transferFunc(fn *ssa.Function) {
 			case *ssa.Field:
 				if fk, ok := structFieldKey(x.X, x.Field); ok {
 					te.setVal(x, te.tagField(te.visible(fk), fk))
+					te.setVal(x, te.tagField(te.get(x.X), fk))
 				}
 				// a struct value copied out of a tainted container
 			case *ssa.Index:
@@ -479,6 +481,9 @@ func (te *taintEngine) transferFunc(fn *ssa.Function) {
 				t := te.get(x.Val)
 				if t == nil {
 					continue
+				}
+				if guardedEqualToConst(x.Val, x.Block()) {
+					continue // stored on the branch where the value was just compared equal to a constant
 				}
 				switch a := x.Addr.(type) {
 				case *ssa.FieldAddr:
@@ -571,6 +576,13 @@ func (te *taintEngine) transferCall(fn *ssa.Function, call *ssa.Call) {
 		return
 	}
 	callee := cc.StaticCallee()
+	if callee != nil && isGeneratedParserFunc(te.p, callee) {
+		// the generated path parser: whatever it returns is made of the text it was given
+		for _, a := range cc.Args {
+			te.setVal(call, te.dropSan(te.get(a)))
+		}
+		return
+	}
 	if callee != nil && IsModuleFunc(callee) && callee.Blocks != nil {
 		if kind := te.sanFn[callee]; kind != "" && len(cc.Args) == 1 {
 			te.setVal(call, te.withSan(te.get(cc.Args[0]), kind))
@@ -954,4 +966,37 @@ func describeSink(p *Prog, s sink) string {
 		f = f[:67] + "..."
 	}
 	return fmt.Sprintf("%q verb %s %s", f, s.Hole.Verb, s.Hole.Ctx)
+}
+
+// guardedEqualToConst: block b is only reached through the true branch of `v == <string constant>`.
+func guardedEqualToConst(v ssa.Value, b *ssa.BasicBlock) bool {
+	for d := b; d != nil; d = d.Idom() {
+		if len(d.Preds) != 1 {
+			continue
+		}
+		pred := d.Preds[0]
+		iff, ok := pred.Instrs[len(pred.Instrs)-1].(*ssa.If)
+		if !ok {
+			continue
+		}
+		bo, ok := iff.Cond.(*ssa.BinOp)
+		if !ok {
+			continue
+		}
+		var other ssa.Value
+		if bo.X == v {
+			other = bo.Y
+		} else if bo.Y == v {
+			other = bo.X
+		} else {
+			continue
+		}
+		if _, isConst := constStringOf(other); !isConst {
+			continue
+		}
+		if (bo.Op == token.EQL && pred.Succs[0] == d) || (bo.Op == token.NEQ && pred.Succs[1] == d) {
+			return true
+		}
+	}
+	return false
 }
